@@ -838,6 +838,7 @@ ldb_recover_log_file(ldb_t *db, uint64_t log_number,
   int compactions = 0;
   ldb_memtable_t *mem = NULL;
   ldb_reader_t reader;
+  uint64_t log_end;
 
   ldb_mutex_assert_held(&db->mutex);
 
@@ -915,6 +916,8 @@ ldb_recover_log_file(ldb_t *db, uint64_t log_number,
     }
   }
 
+  log_end = reader.last_end;
+
   ldb_buffer_clear(&buf);
   ldb_batch_clear(&batch);
   ldb_reader_clear(&reader);
@@ -928,7 +931,11 @@ ldb_recover_log_file(ldb_t *db, uint64_t log_number,
     assert(db->log == NULL);
     assert(db->mem == NULL);
 
+    /* A log whose last complete record does not end at the end of the
+       file has a torn or corrupted tail: anything appended after it
+       would be unreadable. Such a log is compacted instead of reused. */
     if (ldb_file_size(fname, &lfile_size) == LDB_OK &&
+        lfile_size == log_end &&
         ldb_appendfile_create(fname, &db->logfile) == LDB_OK) {
       ldb_log(db->options.info_log, "Reusing old log %s", fname);
 
